@@ -1,0 +1,92 @@
+//go:build verif
+// +build verif
+
+package astisub
+
+import (
+	"crypto/sha256"
+	"fmt"
+	"io"
+	"sort"
+)
+
+// Verification hooks (build tag "verif"): thin wrappers that expose internal entry points to the
+// conformance harness in /verif, and an event hook. Nothing here is compiled without the tag.
+
+// VerifHook, when set, receives one event per instrumented site.
+var VerifHook func(site string, key interface{}, kv ...interface{})
+
+func verifEmit(site string, key interface{}, kv ...interface{}) {
+	if h := VerifHook; h != nil {
+		h(site, key, kv...)
+	}
+}
+
+// VerifScanLines runs the package's line scanner over r and returns the lines and the scanner's error.
+func VerifScanLines(r io.Reader) (lines []string, err error) {
+	s := newScanner(r)
+	for s.Scan() {
+		lines = append(lines, s.Text())
+	}
+	return lines, s.Err()
+}
+
+// VerifReadNBytes exposes the STL block reader.
+func VerifReadNBytes(r io.Reader, n int) ([]byte, error) { return readNBytes(r, n) }
+
+// VerifTablesFingerprint hashes the package-level tables that every call reads and none may write.
+func VerifTablesFingerprint() string {
+	h := sha256.New()
+	p := func(format string, a ...interface{}) { fmt.Fprintf(h, format, a...) }
+	for k1 := 0; k1 < 256; k1++ {
+		m, ok := teletextCharsets[uint8(k1)]
+		if !ok {
+			continue
+		}
+		for k2 := 0; k2 < 256; k2++ {
+			if e, ok := m[uint8(k2)]; ok {
+				p("cs %d %d %v %v", k1, k2, *e.g0, *e.g2)
+				if e.national != nil {
+					p(" %v", *e.national)
+				}
+				p("|")
+			}
+		}
+	}
+	p("g0 %v %v %v %v %v %v %v|", *teletextCharsetG0Latin, *teletextCharsetG0CyrillicOption1, *teletextCharsetG0CyrillicOption2,
+		*teletextCharsetG0CyrillicOption3, *teletextCharsetG0Greek, *teletextCharsetG0Arabic, *teletextCharsetG0Hebrew)
+	p("g2 %v %v|", *teletextCharsetG2Latin, teletextNationalSubsetCharactersPositionInG0)
+	var tn []int
+	for k := range stlCharacterCodeTables {
+		tn = append(tn, int(k))
+	}
+	sort.Ints(tn)
+	for _, k := range tn {
+		for c := 0; c < 256; c++ {
+			if v, ok := stlCharacterCodeTables[uint16(k)].Get(c); ok {
+				p("stl %d %d %v|", k, c, v)
+			}
+		}
+	}
+	for c := 0; c < 256; c++ {
+		if v, ok := stlUnicodeMapping.Get(byte(c)); ok {
+			p("um %d %v|", c, v)
+		}
+		if v, ok := stlUnicodeDiacritic.Get(byte(c)); ok {
+			p("ud %d %v|", c, v)
+		}
+	}
+	for _, l := range []string{LanguageChinese, LanguageEnglish, LanguageFrench, LanguageJapanese, LanguageNorwegian} {
+		v, _ := ttmlLanguageMapping.GetInverse(l)
+		w, _ := stlLanguageMapping.GetInverse(l)
+		p("lang %s %v %v|", l, v, w)
+	}
+	for _, f := range []int{25, 30} {
+		v, _ := stlFramerateMapping.GetInverse(f)
+		p("fr %d %v|", f, v)
+	}
+	p("colors %v %v %v %v %v %v %v %v|", *ColorBlack, *ColorBlue, *ColorCyan, *ColorGreen, *ColorMagenta, *ColorRed, *ColorYellow, *ColorWhite)
+	p("bom %v %v %v|", BytesBOM, bytesLineSeparator, bytesSpace)
+	p("esc %q %q|", escapeHTML("&< x"), unescapeHTML("&amp;&lt;&nbsp;x"))
+	return fmt.Sprintf("%x", h.Sum(nil))
+}
